@@ -353,6 +353,17 @@ struct UtfSim
         if (cnt != k || stop != pos) return c.fail("length-counter-wrong", "a_utf_length", "counted %zu code points / stopped at %zu; stepping the decoder gives %zu / %zu", (size_t)cnt, (size_t)stop, k, pos);
         a_size const cnt2 = a_utf_length(g, n, nullptr);
         if (cnt2 != cnt) return c.fail("length-counter-wrong", "a_utf_length", "count differs without a stop pointer");
+        if (n >= sizeof(a_size))
+        { // the stop cell may overlap the text (no restrict in the interface): the text must have been read before it is written
+            a_size cell[40]; size_t const m = n < sizeof cell ? n : sizeof cell;
+            memcpy(cell, p, m);
+            size_t pos2 = 0, k2 = 0;
+            while (pos2 < m) { unsigned r = a_utf_decode((unsigned char const *)p + pos2, m - pos2, nullptr); if (!r) break; pos2 += r; ++k2; }
+            c.site("a_utf_length");
+            a_size const cnt3 = a_utf_length(cell, m, &cell[0]);
+            if (cnt3 != k2 || cell[0] != pos2) return c.fail("length-counter-wrong", "a_utf_length", "with the stop cell overlapping the text: counted %zu / stopped at %zu, stepping the decoder gives %zu / %zu", (size_t)cnt3, (size_t)cell[0], k2, pos2);
+            c.st.add("probe.length_counter_stop_cell_overlaps_text");
+        }
         return true;
     }
     bool single(uint32_t cp)
